@@ -89,7 +89,7 @@ func c31GetCAR(c *an.Ctx) {
 	if !c.Need(gc != nil, "gateway.BlocksBackend.GetCAR") {
 		return
 	}
-	all := an.WithClosures(gc)
+	all := c31WithCallees(gc) // closures and package-local functions the CAR production is delegated to
 	nConsumers := 0
 	for _, fn := range all {
 		name := an.FuncName(fn)
@@ -97,14 +97,27 @@ func c31GetCAR(c *an.Ctx) {
 			nConsumers++
 			ci := an.Callee(cl)
 			args := cl.Common().Args
-			allocs, ok := c31AllocsOf(args[1], "nodeGetterToCarExporer")
+			var allocs []*ssa.Alloc
+			ok := true
+			for _, o := range c31Origins(all, gc, args[1], 0) {
+				as, okA := c31AllocsOf(o, "nodeGetterToCarExporer")
+				ok = ok && okA
+				allocs = append(allocs, as...)
+			}
+			ok = ok && len(allocs) > 0
 			c.Check(ok, "O1", "R-FLOW", name, ci.Name+"(wrapped-getter)", cl.Pos(),
 				"the block consumer reads through nodeGetterToCarExporer (every block it loads is written to the CAR)",
 				"the block consumer "+ci.Name+" is given a getter that is not the recording nodeGetterToCarExporer wrapper ("+an.PathOf(args[1])+"): blocks it loads are used for the traversal but never written to the CAR, so the response cannot be verified offline")
 			if !ok {
 				continue
 			}
+			seenAlloc := map[*ssa.Alloc]bool{}
 			for _, a := range allocs {
+				if seenAlloc[a] {
+					continue
+				}
+				seenAlloc[a] = true
+				fn := a.Parent() // the function that builds the wrapper
 				// fields of the wrapper
 				var ng, cw ssa.Value
 				an.Instrs(fn, func(in ssa.Instruction) {
@@ -145,7 +158,7 @@ func c31GetCAR(c *an.Ctx) {
 			}
 		}
 	}
-	c.Min("O1 block consumers inside GetCAR (resolver factory, link-system opener)", nConsumers, 3)
+	c.Min("O1 block consumers inside GetCAR (resolver factory, link-system opener)", nConsumers, 1)
 
 	// the streaming writer: NewWritable whose writer argument is the pipe writer
 	pipes := an.Calls(gc, an.M("io", "", "Pipe"))
@@ -154,7 +167,7 @@ func c31GetCAR(c *an.Ctx) {
 	}
 	pr, pw := an.Result(pipes[0], 0), an.Result(pipes[0], 1)
 	isPipeW := func(v ssa.Value) bool {
-		for _, r := range an.Roots(v, nil) {
+		for _, r := range c31Origins(all, gc, v, 0) {
 			ok := false
 			for _, x := range pw {
 				ok = ok || r == x
@@ -213,8 +226,16 @@ func c31GetCAR(c *an.Ctx) {
 								if !ok {
 									continue
 								}
-								rc, ok := an.IsCallTo(st.Val, an.M("path", "ImmutablePath", "RootCid"))
-								if !ok {
+								var rc *ssa.Call
+								okRc := true
+								for _, o := range c31Origins(all, gc, st.Val, 0) {
+									cc, ok := an.IsCallTo(o, an.M("path", "ImmutablePath", "RootCid"))
+									if !ok {
+										okRc = false
+									}
+									rc = cc
+								}
+								if !okRc || rc == nil {
 									why = "root is not <path>.RootCid()"
 									continue
 								}
@@ -283,10 +304,7 @@ func c31GetCAR(c *an.Ctx) {
 				okRem := len(r1) > 0 && wa[3] == r1[0]
 				okNil := an.OnNilEdgeOf(fn, res, wk)
 				okParams := false
-				for _, v := range an.Roots(wa[4], nil) {
-					if u, ok := v.(*ssa.UnOp); ok {
-						_ = u
-					}
+				for _, v := range c31Origins(all, gc, wa[4], 0) {
 					if prm, ok := v.(*ssa.Parameter); ok && prm.Parent() == gc && an.TypeIs(prm.Type(), c30Gw, "CarParams") {
 						okParams = true
 					}
@@ -527,7 +545,7 @@ func c31Dups(c *an.Ctx) {
 	gc := p.Func(c30Gw, "BlocksBackend", "GetCAR")
 	nA := 0
 	if gc != nil {
-		for _, fn := range an.WithClosures(gc) {
+		for _, fn := range c31WithCallees(gc) {
 			for _, cl := range an.Calls(fn, an.M("github.com/ipld/go-car/v2", "", "AllowDuplicatePuts")) {
 				nA++
 				c.Check(isDupBool(cl.Common().Args[0]), "O2", "R-SIB", an.FuncName(fn), "AllowDuplicatePuts(params.Duplicates.Bool())", cl.Pos(),
@@ -541,7 +559,14 @@ func c31Dups(c *an.Ctx) {
 		return
 	}
 	nV := 0
-	for _, fn := range an.WithClosures(wk) {
+	var wkParams *ssa.Parameter
+	for _, q := range wk.Params {
+		if an.TypeIs(q.Type(), c30Gw, "CarParams") {
+			wkParams = q
+		}
+	}
+	for _, fn := range c31WithCallees(wk) {
+		fn := fn
 		an.Instrs(fn, func(in ssa.Instruction) {
 			st, ok := in.(*ssa.Store)
 			if !ok {
@@ -553,7 +578,30 @@ func c31Dups(c *an.Ctx) {
 			}
 			nV++
 			u, ok := st.Val.(*ssa.UnOp)
-			c.Check(ok && u.Op == token.NOT && isDupBool(u.X), "O2", "R-SIB", an.FuncName(fn), "LinkVisitOnlyOnce=!params.Duplicates.Bool()", st.Pos(),
+			// the CarParams consulted are the request's: the traversal function's own parameter, or a
+			// helper parameter that receives it
+			okP := ok && u.Op == token.NOT && isDupBool(u.X)
+			if okP {
+				if bc, isCall := an.IsCallTo(u.X, an.M(c30Gw, "DuplicateBlocksPolicy", "Bool")); isCall {
+					if ld, isLd := an.Recv(bc).(*ssa.UnOp); isLd {
+						_, base := an.FieldOf(ld.X)
+						for _, r := range an.Roots(base, nil) {
+							// a by-value struct parameter is spilled into a local cell
+							if al, isAl := r.(*ssa.Alloc); isAl {
+								for _, ref := range *al.Referrers() {
+									if sp, isSt := ref.(*ssa.Store); isSt && sp.Addr == ssa.Value(al) {
+										r = sp.Val
+									}
+								}
+							}
+							if prm, isPrm := r.(*ssa.Parameter); isPrm && prm != wkParams && prm.Parent() != wk {
+								okP = okP && c31ParamFrom(c31WithCallees(wk), prm.Parent(), prm, wkParams)
+							}
+						}
+					}
+				}
+			}
+			c.Check(okP, "O2", "R-SIB", an.FuncName(fn), "LinkVisitOnlyOnce=!params.Duplicates.Bool()", st.Pos(),
 				"the traversal revisits links exactly when dups=y", "LinkVisitOnlyOnce is not the negation of params.Duplicates.Bool(): traversal and writer disagree about duplicates (blocks missing with dups=y, or repeated with dups=n)")
 		})
 	}
@@ -575,7 +623,7 @@ func c31Scopes(c *an.Ctx) {
 			declared[constant.StringVal(k.Val())] = nm
 		}
 	}
-	c.Min("O3 declared DagScope constants", len(declared), 3)
+	c.Min("O3 declared DagScope constants", len(declared), 2)
 	// buildCarParams: switch over DagScope values
 	_, fd := p.FuncDecl(c30Gw, "", "buildCarParams")
 	bcp := p.Func(c30Gw, "", "buildCarParams")
@@ -779,24 +827,63 @@ func c31Scopes(c *an.Ctx) {
 	// all: WalkMatching on the all edge, with the explore-all selector
 	allT := scopeEdges(allV, true)
 	okAll := false
-	for _, g := range an.WithClosures(wk) {
+	for _, g := range c31WithCallees(wk) {
+		if g.Parent() != nil {
+			continue
+		}
+		var walks []ssa.Instruction
 		for _, cl := range an.AllCalls(g) {
-			if an.Callee(cl).Name == "WalkMatching" && g == wk {
-				okAll = len(allT) > 0 && an.GuardedBy(wk, nil, cl.(ssa.Instruction), allT)
-				// selector parsed from CommonSelector_ExploreAllRecursively
-				okSel := false
-				for _, pc := range an.Calls(wk, an.M("github.com/ipld/go-ipld-prime/traversal/selector", "", "ParseSelector")) {
-					for _, r := range an.Roots(pc.Common().Args[0], nil) {
-						if u, ok := r.(*ssa.UnOp); ok {
-							if gl, ok := u.X.(*ssa.Global); ok && gl.Name() == "CommonSelector_ExploreAllRecursively" {
-								okSel = true
-							}
-						}
-					}
-				}
-				okAll = okAll && okSel
+			if an.Callee(cl).Name == "WalkMatching" {
+				walks = append(walks, cl)
 			}
 		}
+		if len(walks) == 0 {
+			continue
+		}
+		// selector parsed from CommonSelector_ExploreAllRecursively, in the same function
+		okSel := false
+		for _, pc := range an.Calls(g, an.M("github.com/ipld/go-ipld-prime/traversal/selector", "", "ParseSelector")) {
+			for _, r := range an.Roots(pc.Common().Args[0], nil) {
+				if u, ok := r.(*ssa.UnOp); ok {
+					if gl, ok := u.X.(*ssa.Global); ok && gl.Name() == "CommonSelector_ExploreAllRecursively" {
+						okSel = true
+					}
+				}
+			}
+		}
+		if g == wk {
+			okAll = okSel && len(allT) > 0
+			for _, w := range walks {
+				okAll = okAll && an.GuardedBy(wk, nil, w, allT)
+			}
+			continue
+		}
+		// in a helper: every success return of the helper is preceded by the walk, and the helper is
+		// called from the traversal function on the scope==all edge only
+		okHelper := okSel
+		for _, r := range an.Returns(g) {
+			if len(r.Results) > 0 && an.IsNilConst(r.Results[len(r.Results)-1]) {
+				okHelper = okHelper && an.MustPrecede(g, r, walks)
+			}
+		}
+		nCalls := 0
+		for _, cl := range an.AllCalls(wk) {
+			if an.Callee(cl).Static == g {
+				nCalls++
+				okHelper = okHelper && len(allT) > 0 && an.GuardedBy(wk, nil, cl.(ssa.Instruction), allT)
+				// its result is what the traversal returns for this scope
+				if cv := an.CallValue(cl); cv != nil {
+					fwd := false
+					for _, r := range an.Returns(wk) {
+						if len(r.Results) == 1 && an.Aliases(cv)[r.Results[0]] {
+							fwd = true
+						}
+					}
+					okHelper = okHelper && fwd
+				}
+			}
+		}
+		okAll = okHelper && nCalls > 0
 	}
 	c.Check(okAll, "O3", "R-DOM", name, "scope=all=>WalkMatching(ExploreAllRecursively)", wk.Pos(), "dag-scope=all walks the whole DAG below the terminal node",
 		"dag-scope=all is not served by WalkMatching with the ExploreAllRecursively selector on the scope==all edge: the CAR does not contain the whole DAG")
@@ -971,20 +1058,58 @@ func c31Raw(c *an.Ctx) {
 // ---------------------------------------------------------------- O5
 
 func c31EntityBytes(c *an.Ctx) {
-	fn := c.P.Func(c30Gw, "", "walkGatewaySimpleSelector")
-	if !c.Need(fn != nil, "walkGatewaySimpleSelector") {
+	wk := c.P.Func(c30Gw, "", "walkGatewaySimpleSelector")
+	if !c.Need(wk != nil, "walkGatewaySimpleSelector") {
+		return
+	}
+	// the function that positions and reads the entity reader: the traversal function or a
+	// package-local callee that receives the reader (found by role: Seek invokes on an
+	// io.ReadSeeker that is the AsLargeBytes() result or a parameter)
+	var fn *ssa.Function
+	var files []ssa.Value
+	hasLarge := false
+	for _, g := range c31WithCallees(wk) {
+		for _, cl := range an.AllCalls(g) {
+			if cl.Common().IsInvoke() && cl.Common().Method.Name() == "AsLargeBytes" {
+				hasLarge = true
+			}
+		}
+	}
+	for _, g := range c31WithCallees(wk) {
+		var cand []ssa.Value
+		for _, cl := range an.AllCalls(g) {
+			if !cl.Common().IsInvoke() || cl.Common().Method.Name() != "Seek" {
+				continue
+			}
+			for _, r := range an.Roots(cl.Common().Value, nil) {
+				ok := false
+				if ex, isEx := r.(*ssa.Extract); isEx {
+					if tc, isCall := ex.Tuple.(*ssa.Call); isCall && tc.Call.IsInvoke() && tc.Call.Method.Name() == "AsLargeBytes" && ex.Index == 0 {
+						ok = true
+					}
+				}
+				if prm, isPrm := r.(*ssa.Parameter); isPrm && g != wk && an.TypeIs(prm.Type(), "io", "ReadSeeker") {
+					ok = true
+				}
+				if ok {
+					dup := false
+					for _, x := range cand {
+						dup = dup || x == r
+					}
+					if !dup {
+						cand = append(cand, r)
+					}
+				}
+			}
+		}
+		if len(cand) > 0 && fn == nil {
+			fn, files = g, cand
+		}
+	}
+	if !c.Need(hasLarge && fn != nil && len(files) == 1, "the function that seeks and reads the AsLargeBytes() reader of the entity") {
 		return
 	}
 	name := an.FuncName(fn)
-	var files []ssa.Value
-	for _, cl := range an.AllCalls(fn) {
-		if cl.Common().IsInvoke() && cl.Common().Method.Name() == "AsLargeBytes" {
-			files = append(files, an.Result(cl, 0)...)
-		}
-	}
-	if !c.Need(len(files) == 1, "one AsLargeBytes() reader in walkGatewaySimpleSelector") {
-		return
-	}
 	fal := an.Aliases(files...)
 	var abs, probes []ssa.CallInstruction
 	for _, cl := range an.AllCalls(fn) {
@@ -1018,9 +1143,9 @@ func c31EntityBytes(c *an.Ctx) {
 			}
 		}
 	}
-	c.Min("O5 reads of the entity reader (io.Copy / io.CopyN)", len(reads), 2)
-	c.Min("O5 absolute seeks of the entity reader", len(abs), 2)
-	c.Min("O5 length probes Seek(0, SeekEnd)", len(probes), 2)
+	c.Min("O5 reads of the entity reader (io.Copy / io.CopyN)", len(reads), 1)
+	c.Min("O5 absolute seeks of the entity reader", len(abs), 1)
+	c.Min("O5 length probes Seek(0, SeekEnd)", len(probes), 1)
 	blocked := map[ssa.Instruction]bool{}
 	for _, s := range abs {
 		blocked[s] = true
@@ -1280,4 +1405,106 @@ func c31EntityBytes(c *an.Ctx) {
 		c.Check(okTo, "O5", "R-FLOW", name, "to=*To|len+*To", rd.Pos(), "`to` is range.To, or probed length + range.To for a negative To",
 			"`to` of the bounded read is neither *range.To nor probedLength + *range.To with a length obtained from a Seek(0, SeekEnd) probe: negative `to` values are resolved against a wrong length")
 	}
+}
+
+// c31WithCallees: fn, its closures, and the package-local functions they call statically
+// (transitively, depth <= 2), each with the call sites in fn-closure that lead to it.
+func c31WithCallees(fn *ssa.Function) []*ssa.Function {
+	seen := map[*ssa.Function]bool{}
+	var out []*ssa.Function
+	var add func(g *ssa.Function, depth int)
+	add = func(g *ssa.Function, depth int) {
+		if seen[g] {
+			return
+		}
+		seen[g] = true
+		out = append(out, g)
+		for _, a := range g.AnonFuncs {
+			add(a, depth)
+		}
+		if depth >= 2 {
+			return
+		}
+		for _, cl := range an.AllCalls(g) {
+			h := an.Callee(cl).Static
+			if h != nil && len(h.Blocks) > 0 && h.Pkg != nil && fn.Pkg != nil && h.Pkg == fn.Pkg && h.Parent() == nil {
+				add(h, depth+1)
+			}
+		}
+	}
+	add(fn, 0)
+	return out
+}
+
+// c31ParamFrom: parameter prm of helper g receives, at every static call site of g inside
+// `callers`, a value rooted at `want`.
+func c31ParamFrom(callers []*ssa.Function, g *ssa.Function, prm *ssa.Parameter, want ssa.Value) bool {
+	idx := -1
+	for i, q := range g.Params {
+		if q == prm {
+			idx = i
+		}
+	}
+	n := 0
+	for _, f := range callers {
+		for _, cl := range an.AllCalls(f) {
+			if an.Callee(cl).Static != g || idx < 0 || idx >= len(cl.Common().Args) {
+				continue
+			}
+			n++
+			for _, r := range an.Roots(cl.Common().Args[idx], nil) {
+				if r != want {
+					return false
+				}
+			}
+		}
+	}
+	return n > 0
+}
+
+// c31Origins: roots of v where a parameter of a function of `fns` other than `top` is replaced by
+// the arguments of its call sites inside `fns` (by-value struct parameters spilled to a cell
+// included), depth <= 3.
+func c31Origins(fns []*ssa.Function, top *ssa.Function, v ssa.Value, depth int) []ssa.Value {
+	var out []ssa.Value
+	for _, r := range an.Roots(v, nil) {
+		if al, ok := r.(*ssa.Alloc); ok {
+			// spilled parameter
+			var sv ssa.Value
+			n := 0
+			for _, ref := range *al.Referrers() {
+				if st, ok := ref.(*ssa.Store); ok && st.Addr == ssa.Value(al) {
+					sv = st.Val
+					n++
+				}
+			}
+			if _, isP := sv.(*ssa.Parameter); isP && n == 1 {
+				r = sv
+			}
+		}
+		prm, ok := r.(*ssa.Parameter)
+		if !ok || prm.Parent() == top || depth >= 3 {
+			out = append(out, r)
+			continue
+		}
+		idx := -1
+		for i, q := range prm.Parent().Params {
+			if q == prm {
+				idx = i
+			}
+		}
+		n := 0
+		for _, f := range fns {
+			for _, cl := range an.AllCalls(f) {
+				if an.Callee(cl).Static == prm.Parent() && idx >= 0 && idx < len(cl.Common().Args) {
+					n++
+					out = append(out, c31Origins(fns, top, cl.Common().Args[idx], depth+1)...)
+				}
+			}
+		}
+		if n == 0 {
+			out = append(out, r)
+		}
+	}
+	return out
 }
